@@ -171,7 +171,7 @@ func runRaw(c RawCase) kit.Result {
 
 var rawSpec = kit.Spec[RawCase]{
 	Prop: "C43", Name: "raw",
-	Rule: "combinators stacked directly (only the source is instrumented), compared with list semantics, source pulls bounded by the reference consumption + 1, Close reaches the source; non-trivial = depth>=2 or two directly stacked Limits",
+	Rule:  "combinators stacked directly (only the source is instrumented), compared with list semantics, source pulls bounded by the reference consumption + 1, Close reaches the source; non-trivial = depth>=2 or two directly stacked Limits",
 	Quick: 8000, Thorough: 60000,
 	Gen: genRaw, Run: runRaw,
 }
@@ -303,7 +303,7 @@ func runJSON(c JSONCase) kit.Result {
 
 var jsonSpec = kit.Spec[JSONCase]{
 	Prop: "C43", Name: "json",
-	Rule: "JSON iterator over a stream of structured elements (structs with omitted fields, maps, slices) under an optional Limit; every yielded value equals an independent decode of that element's own text, also when values are kept and inspected after the iteration; non-trivial = at least two different elements",
+	Rule:  "JSON iterator over a stream of structured elements (structs with omitted fields, maps, slices) under an optional Limit; every yielded value equals an independent decode of that element's own text, also when values are kept and inspected after the iteration; non-trivial = at least two different elements",
 	Quick: 6000, Thorough: 40000,
 	Gen: genJSON, Run: runJSON,
 }
